@@ -44,7 +44,7 @@ def run(ctx, chk):
     chk.rule("C01.null", "no possibly-NULL allocation result is dereferenced or handed to an unchecked-dereferencing callee")
     chk.not_decided += ["the value-dependent assertions (subitems > 0, subitems == 1, codepoint_count <= length, refcount > 0, "
                         "written == serialized_size) and assertions placed mid-function: facts about runtime counters",
-                        "absence of undefined behaviour in value computations (shift distances in cbor_encode_half)",
+                        "undefined behaviour in value computations other than shift distances (signed overflow of int arithmetic on 8/16-bit promoted values is excluded by their ranges; not machine-checked)",
                         "client operations on decoded trees are covered only through describe/size/serialize/copy/release being "
                         "subjects of clauses 2, 5, 7, 8"]
     # 1. claim-before-read
@@ -294,6 +294,13 @@ def run(ctx, chk):
                    "%s:%d" % (uc.file, uc.line), fn=uc.name, key="cpcount", detail="a counter of the byte loop is stepped by more than 1")
         else:
             chk.floor("C01.frame-invariants", "recognised shape of the code point counting loop (cannot decide count <= length)", 0, 1)
+
+    # 7d. shifts by a run-time distance stay inside the operand's width (no undefined behaviour in value computations)
+    chk.rule("C01.shift-range", "every shift whose distance is not a constant has a distance below the operand's bit width on every "
+                                "path on which it executes: the distance is evaluated for every value of the few-bit quantities it "
+                                "depends on (an 8-bit exponent, a byte indexing a constant table) that satisfies the path's facts")
+    import shift_rules
+    shift_rules.check_shift_range(chk, "C01.shift-range", prog, eff, cache)
 
     # 8. NULL discipline
     N = O.Nullness(prog, eff, cache)
